@@ -56,6 +56,11 @@ type Opts struct {
 
 func (opts *Opts) init() {
 	utils.SetDefaultNum(&opts.Size, 1024)
+	// The minimum size is 1024. A smaller (or negative) size makes every shard of
+	// the backend unlimited (size/64 == 0 means no limit).
+	if opts.Size < 1024 {
+		opts.Size = 1024
+	}
 	utils.SetDefaultNum(&opts.CleanerInterval, defaultCleanerInterval)
 }
 
